@@ -297,3 +297,16 @@ pub(crate) fn op_error_stub(_op: &str, _lhs: &crate::Value, _rhs: &crate::Value)
 /// environments are replaced or evicted: their drop glue (instruction vectors, block maps, boxed closures) is
 /// what CBMC does not get through, and it has no influence on what the container serves afterwards.
 pub(crate) fn arc_drop_slow_leak<T: ?Sized, A: core::alloc::Allocator>(_this: &mut std::sync::Arc<T, A>) {}
+
+/// Model of `Vec::pop` (used by harnesses in which a `Frame` is pushed and popped): shortens the vector like the real function but leaks the
+/// element instead of returning it (the frame is dropped at once; the drop glue of a `Frame`
+/// read back from the heap - boxed loop iterators, closures - is what runs CBMC out of memory, and it has no
+/// influence on the depth accounting under test).
+pub(crate) fn vec_pop_leaking<T, A: core::alloc::Allocator>(v: &mut Vec<T, A>) -> Option<T> {
+    let n = v.len();
+    if n > 0 {
+        unsafe { v.set_len(n - 1) };
+    }
+    None
+}
+
